@@ -3,7 +3,9 @@ package c03
 
 import (
 	"encoding/json"
+	"errors"
 	"fmt"
+	"io"
 	"net/http"
 	"net/http/httptest"
 	"net/url"
@@ -515,3 +517,72 @@ func propRaceRequestValue(t *rapid.T) {
 }
 
 func TestRaceRequestValue(t *testing.T) { rapid.Check(t, propRaceRequestValue) }
+
+// propRenderSolo: pages rendered through Router.Renderer, by several requests at the same time and one after another,
+// some of them with a template that fails after it has written part of its page.  Every request gets exactly the
+// response it gets as the only request on a fresh, identical router.
+type halfRenderer struct{}
+
+func (halfRenderer) Render(w io.Writer, name string, data any, ctx *rux.Context) error {
+	_, _ = io.WriteString(w, "<head>"+name+"</head>")
+	if strings.HasPrefix(name, "bad") {
+		return errors.New("template " + name + " is broken after its head")
+	}
+	_, _ = io.WriteString(w, "<body>"+fmt.Sprint(data)+"</body>")
+	return nil
+}
+
+func buildRenderRouter() *rux.Router {
+	r := rux.New()
+	r.Renderer = halfRenderer{}
+	r.GET("/view/{name}", func(c *rux.Context) {
+		if err := c.Render(200, c.Param("name"), c.Query("d")); err != nil {
+			c.Text(500, "render failed: "+err.Error())
+		}
+	})
+	return r
+}
+
+func propRenderSolo(t *rapid.T) {
+	ev.Case()
+	r := buildRenderRouter()
+	solo := func(p string) string {
+		rec := httptest.NewRecorder()
+		buildRenderRouter().ServeHTTP(rec, httptest.NewRequest("GET", p, nil))
+		return fmt.Sprintf("%d %q", rec.Code, rec.Body.String())
+	}
+	gen := func(label string) string {
+		return "/view/" + rapid.SampledFrom([]string{"home", "about", "bad1", "bad2", "list"}).Draw(t, label) + "?d=" + rapid.StringMatching(`[a-z]{0,3}`).Draw(t, label+"Data")
+	}
+	rounds := rapid.IntRange(1, 3).Draw(t, "rounds")
+	for round := 0; round < rounds; round++ {
+		k := rapid.IntRange(1, 4).Draw(t, "atOnce")
+		paths := make([]string, k)
+		for i := range paths {
+			paths[i] = gen("view")
+		}
+		got := make([]string, k)
+		var wg sync.WaitGroup
+		for i := range paths {
+			wg.Add(1)
+			go func(i int) {
+				defer wg.Done()
+				rec := httptest.NewRecorder()
+				r.ServeHTTP(rec, httptest.NewRequest("GET", paths[i], nil))
+				got[i] = fmt.Sprintf("%d %q", rec.Code, rec.Body.String())
+			}(i)
+		}
+		wg.Wait()
+		for i, p := range paths {
+			ev.Eval()
+			if want := solo(p); got[i] != want {
+				t.Fatalf("round %d, %d requests at once %v: GET %s answers %s, alone on a fresh router %s", round, k, paths, p, got[i], want)
+			}
+		}
+		if k > 1 || round > 0 {
+			ev.NonTrivial(fmt.Sprint(round, paths), func() string { return fmt.Sprint(paths) })
+		}
+	}
+}
+
+func TestPropRenderSolo(t *testing.T) { rapid.Check(t, propRenderSolo) }
